@@ -51,6 +51,7 @@ def main(argv):
     demo = os.path.join(sdir, demo[0])
     patch = os.path.join(sdir, "patch.diff")
     tmp = tempfile.mkdtemp(prefix="yaep-seed-")
+    rebased = None
     meta = {"seed": sid, "properties": props, "ran": []}
     try:
         # scratch copies
@@ -60,9 +61,17 @@ def main(argv):
             if variant == "patched":
                 rc, out = sh("git apply %s" % patch, cwd=d)
                 if rc:
-                    print("patch does not apply to /repo HEAD:\n" + out)
-                    meta["applies"] = False
-                    return 3
+                    # /repo moved on (a repair nearby): re-apply with fuzz and keep the refreshed patch
+                    rc2, out2 = sh("patch -p1 -F3 --no-backup-if-mismatch < %s" % patch, cwd=d)
+                    if rc2:
+                        print("patch does not apply to /repo HEAD:\n" + out + out2)
+                        meta["applies"] = False
+                        return 3
+                    rc3, newdiff = sh("git diff", cwd=d)
+                    patch = os.path.join(tmp, "rebased.diff")
+                    open(patch, "w").write(newdiff)
+                    rebased = newdiff
+                    print("patch re-applied with fuzz (rebased on the current HEAD)")
             os.makedirs(os.path.join(d, "w"))
             rc, out = build_demo(os.path.join(d, "src"), demo, os.path.join(d, "w", "demo"), os.path.join(d, "w"))
             if rc:
@@ -81,35 +90,33 @@ def main(argv):
         ok_seed = meta["demo_orig"]["exit"] == 0 and meta["demo_patched"]["exit"] != 0 and m and m.group(2) == "0" and m.group(3) == "120"
         meta["confirmed"] = bool(ok_seed)
         print("seed confirmed:", ok_seed)
+        if os.environ.get("SEED_SCRATCH"):
+            run_checks(props, meta, dict(os.environ, VERIF_REPO=os.path.join(tmp, "patched")))
     finally:
         for variant in ("orig", "patched"):
             sh("git -C /repo worktree remove --force %s" % os.path.join(tmp, variant))
-        shutil.rmtree(tmp, ignore_errors=True)
-    # run the checks against /repo with the patch applied
-    rc, out = sh("git -C /repo status --porcelain --untracked-files=no")
-    if out.strip():
-        print("/repo has uncommitted changes; not applying the seed")
-        return 3
-    rc, out = sh("git -C /repo apply %s" % patch)
-    try:
-        evd = tempfile.mkdtemp(prefix="yaep-seed-ev-")
-        for pr in props:
-            env = dict(os.environ, VERIF_EVIDENCE_DIR=evd)
-            rc, out = sh("python3 -m sa.check %s" % pr, cwd=VERIF, env=env)
-            lines = [l for l in out.splitlines() if l.startswith(("VIOLATION", "  rule", "ANALYSIS", pr + ":"))]
-            meta["ran"].append({"check": "python3 -m sa.check " + pr, "exit": rc, "output": lines[:12]})
-            print("check %s: exit %d" % (pr, rc))
-            for l in lines[:6]:
-                print("   " + l)
-        shutil.rmtree(evd, ignore_errors=True)
-    finally:
-        sh("git -C /repo checkout -- .")
+        if rebased is None:
+            shutil.rmtree(tmp, ignore_errors=True)
+    if not os.environ.get("SEED_SCRATCH"):
+        # run the checks against /repo with the patch applied
+        rc, out = sh("git -C /repo status --porcelain --untracked-files=no")
+        if out.strip():
+            print("/repo has uncommitted changes; not applying the seed")
+            return 3
+        rc, out = sh("git -C /repo apply %s" % patch)
+        try:
+            run_checks(props, meta, dict(os.environ))
+        finally:
+            sh("git -C /repo checkout -- .")
     meta["detected_by"] = [r["check"].split()[-1] for r in meta["ran"] if r["exit"] == 1]
     dst = os.path.join(VERIF, "seeded", sid)
     os.makedirs(dst, exist_ok=True)
     for fn in os.listdir(sdir):
         if (fn in ("patch.diff", "notes.txt") or fn.startswith("demo.")) and os.path.abspath(sdir) != os.path.abspath(dst):
             shutil.copy(os.path.join(sdir, fn), os.path.join(dst, fn))
+    if rebased is not None:
+        open(os.path.join(dst, "patch.diff"), "w").write(rebased)
+        shutil.rmtree(tmp, ignore_errors=True)
     old = {}
     mp = os.path.join(dst, "meta.json")
     if os.path.exists(mp):
@@ -117,6 +124,20 @@ def main(argv):
     old.update(meta)
     json.dump(old, open(mp, "w"), indent=1)
     return 0
+
+
+def run_checks(props, meta, base_env):
+    if True:
+        evd = tempfile.mkdtemp(prefix="yaep-seed-ev-")
+        for pr in props:
+            env = dict(base_env, VERIF_EVIDENCE_DIR=evd)
+            rc, out = sh("python3 -m sa.check %s" % pr, cwd=VERIF, env=env)
+            lines = [l for l in out.splitlines() if l.startswith(("VIOLATION", "  rule", "ANALYSIS", pr + ":"))]
+            meta["ran"].append({"check": "python3 -m sa.check " + pr, "exit": rc, "output": lines[:12]})
+            print("check %s: exit %d" % (pr, rc))
+            for l in lines[:6]:
+                print("   " + l)
+        shutil.rmtree(evd, ignore_errors=True)
 
 
 if __name__ == "__main__":
